@@ -563,8 +563,12 @@ impl RuleGen {
             }
             4 | 5 if !strs.is_empty() => {
                 ops.push(v(pick(rng, &strs)));
-                ops.push(Op::Value(Term::Str(pick(rng, &STRS).to_string())));
-                ops.push(Op::Binary(pick(rng, &[B::Prefix, B::Contains, B::Equal, B::Suffix, B::HeterogeneousNotEqual]).clone()));
+                // the last three are also patterns without metacharacters, for `.matches`
+                let lit = pick(rng, &STRS).to_string();
+                let ascii = lit.is_ascii();
+                ops.push(Op::Value(Term::Str(lit)));
+                let b = pick(rng, &[B::Prefix, B::Contains, B::Equal, B::Suffix, B::HeterogeneousNotEqual, B::Regex, B::Regex]).clone();
+                ops.push(Op::Binary(if b == B::Regex && !ascii { B::Contains } else { b }));
             }
             6 if !strs.is_empty() => {
                 // concatenation compared with a literal: exercises the temporary symbol table
